@@ -190,6 +190,7 @@ func vxTimeLT(a, b time.Time) bool           { panic("vx") }
 func vxIsSymbolic() bool                     { panic("vx") }
 func vxErr(msg string) error                 { panic("vx") }
 func vxCatch(f func()) bool                  { panic("vx") }
+func vxSpawn(f func())                       { panic("vx") }
 func vxBox(v any) []byte                     { panic("vx") }
 func vxUnbox(b []byte, out any) bool         { panic("vx") }
 `
@@ -483,7 +484,9 @@ func trimStack(b []byte) string {
 }
 
 func runEntryOnce(in *Interp, fn *ssa.Function) {
+	in.killThreads()
 	in.resetPath()
+	defer in.killThreads()
 	defer func() {
 		if r := recover(); r != nil {
 			if gp, ok := r.(goPanic); ok {
@@ -494,6 +497,9 @@ func runEntryOnce(in *Interp, fn *ssa.Function) {
 		}
 	}()
 	in.Call(fn, nil, nil)
+	if why := in.unfinishedThreads(); why != "" {
+		unsupported("%s", why)
+	}
 }
 
 func (in *Interp) panicString(v Value) (s string) {
